@@ -385,7 +385,14 @@ fn kind_resp() -> Vec<Ev> {
 /// headers the `req` cases send next to the content type
 pub const REQ_EXTRA: [(&str, &str); 5] = [("content-length", "123"), ("te", "gzip"), ("accept-encoding", "br"), ("x-user", "a"), ("x-user", "b")];
 
+// the kinds of the dimension audit (aC16): hints of the translated bodies, inner response heads, histories, real stacks
+#[path = "c16_x.rs"]
+mod x;
+
 pub fn execute(case: &str) -> String {
+    if let Some(o) = x::execute(case) {
+        return o;
+    }
     let t: Vec<&str> = case.split(' ').filter(|s| !s.is_empty()).collect();
     match t.as_slice() {
         // resph <hints> <acc> <evs..>: `resp` with an inner response body that gives size / end-of-stream hints
@@ -1182,5 +1189,6 @@ pub fn generate(tier: &str, rng: &mut Rng) -> Vec<String> {
     hinted.sort();
     hinted.dedup();
     out.extend(hinted);
+    out.extend(x::generate(tier, rng));
     out
 }
